@@ -44,6 +44,8 @@ INVARIANT RoundTrip
 {emit}CHECK_DEADLOCK FALSE
 """
 
+REPRO_GROUPS = [{"p": 11, "a": 10, "b": 10, "g": [4, 2], "n": 7, "h": 2, "card": 14}]
+
 HFS = {"sha1": hashlib.sha1, "sha256": hashlib.sha256, "sha512": hashlib.sha512}
 
 
@@ -207,6 +209,14 @@ def replay_group(run: Run, g: dict[str, Any], tab: dict[str, Any], rnd: random.R
                     except Exception as e:  # noqa: BLE001
                         got_set = f"foreign {type(e).__name__}"
                     if got_set != want_set:
+                        sub = set(pubs.values())
+                        extras = got_set - want_set if isinstance(got_set, set) else set()
+                        if isinstance(got_set, set) and want_set <= got_set and extras and not (extras & sub) and g["h"] % 2 == 0:
+                            # the candidates of the standard are all there; the extra ones are not points of <G>
+                            viol("recover_pub_keys_|keys outside the subgroup|even cofactor",
+                                 f"recover_pub_keys_(c={c}, r={r}, s={s}) = {got_set}: {extras} are outside the subgroup of order {n}",
+                                 {"op": "recover_pub_keys_", "args": [c, r, s], "expected": sorted(want_set)})
+                            continue
                         viol("recover_pub_keys_", f"recover_pub_keys_(c={c}, r={r}, s={s}) = {got_set}, SEC 1 4.1.6 gives {want_set}",
                              {"op": "recover_pub_keys_", "args": [c, r, s], "expected": sorted(want_set)})
         # nonce reuse: two signatures with one nonce give the key away
@@ -440,6 +450,10 @@ def check(run: Run) -> None:
                        "toy curves are those SEC 1 validation accepts (btclib refuses the others by construction)"]
     recs = c01.gen_tables(run, [5, 7, 11, 13] if thorough else [5, 7, 11])
     groups = pick_groups(recs, rnd, 10 if thorough else 4, 17 if thorough else 13)
+    # the reproducers of the listed findings are always in the corpus
+    for fixed in REPRO_GROUPS:
+        if not any(all(g[k] == fixed[k] for k in ("p", "a", "b", "g", "n")) for g in groups):
+            groups.append(dict(fixed))
     if len(groups) < 3:
         raise tlc.TLCFailure("C02: fewer than 3 toy groups selected")
     tabs = toy_tables(run, groups)
